@@ -76,10 +76,12 @@ ParamDepth(toks, upto) ==
   IF upto = 0 THEN 0
   ELSE LET d == ParamDepth(toks, upto - 1) IN
        IF ParamOpen(toks[upto]) THEN d + 1 ELSE IF ParamClose(toks[upto]) /\ d > 0 THEN d - 1 ELSE d
-InBackquote(o)  == o.mut > 0 /\ (CountChar(o.toks, o.mut - 1, "`") % 2 = 1 \/ Has(o.toks[o.mut], "`"))
+\* the positions a mutation touches: the mutated token and the one before it (a swap moves two tokens)
+Touched(o) == {m \in {o.mut - 1, o.mut} : m >= 1 /\ m <= Len(o.toks)}
+InBackquote(o)  == \E m \in Touched(o) : CountChar(o.toks, m - 1, "`") % 2 = 1 \/ Has(o.toks[m], "`")
 \* (the mutated token may itself be the one that opens the region)
-InArith(o)      == o.mut > 0 /\ (ArithDepth(o.toks, o.mut - 1) > 0 \/ ArithOpen(o.toks[o.mut]))
-InParamExp(o)   == o.mut > 0 /\ (ParamDepth(o.toks, o.mut - 1) > 0 \/ ParamOpen(o.toks[o.mut]))
+InArith(o)      == \E m \in Touched(o) : ArithDepth(o.toks, m - 1) > 0 \/ ArithOpen(o.toks[m])
+InParamExp(o)   == \E m \in Touched(o) : ParamDepth(o.toks, m - 1) > 0 \/ ParamOpen(o.toks[m])
 
 \* ---------------------------------------------------------------- token conditions of the named differences
 LoneBangTok(toks) ==
@@ -96,7 +98,9 @@ HdocWordExpansionTok(toks) ==
 AmpGreaterTok(toks) == \E k \in DOMAIN toks :
                           \/ toks[k] \in {<<"&", ">">>, <<"&", ">", ">">>}
                           \/ (toks[k] = <<"&">> /\ k < Len(toks) /\ StartsWith(toks[k + 1], <<">">>))
-EmptyArithTok(toks) == \E k \in DOMAIN toks : toks[k] = <<"$", "(", "(", ")", ")">>
+EmptyArithTok(toks) == \E k \in DOMAIN toks :
+                          \/ toks[k] = <<"$", "(", "(", ")", ")">>
+                          \/ (EndsWith(toks[k], <<"$", "(", "(">>) /\ k < Len(toks) /\ toks[k + 1] = <<")", ")">>)
 BadByteTok(toks)    == \E k \in DOMAIN toks : toks[k] = <<"B", "A", "D">>      \* rendered as the byte 0xff
 
 StricterThanShell(o) == o.impl # "ok" /\ o.shell = "ok"       \* the only direction most excuses cover
@@ -121,6 +125,16 @@ IntentionalDiff_InvalidUTF8(o) == StricterThanShell(o) /\ BadByteTok(o.toks)
 IntentionalDiff_CRLF(o) == o.cr /\ o.impl = "ok" /\ o.shell = "rejected"
 \* parser_test.go:1098 `echo $(())`: "empty arithmetic expressions seem to be OK" for the shells.
 IntentionalDiff_EmptyArithmetic(o) == StricterThanShell(o) /\ EmptyArithTok(o.toks)
+\* parser_test.go:1951, :1956 "note that we don't backtrack": `((` always starts arithmetic for syntax.Parser;
+\* the shells fall back to two nested subshells when the text is not arithmetic.
+DblParenTok(toks) == \E k \in DOMAIN toks : toks[k] = <<"(", "(">> \/
+                        (toks[k] = <<"(">> /\ k < Len(toks) /\ StartsWith(toks[k + 1], <<"(">>))
+IntentionalDiff_NoArithBacktrack(o) == StricterThanShell(o) /\ DblParenTok(o.toks)
+\* parser_test.go:303-:307 (confirmParse prepends `shopt -s extglob`: "otherwise bash refuses to parse these
+\* properly"): Bash mode assumes extglob is on, so `!(` starts a pattern list; plain `bash -n` has extglob off and
+\* reads a negated subshell.
+BangParenTok(toks) == \E k \in DOMAIN toks : toks[k] = <<"!">> /\ k < Len(toks) /\ StartsWith(toks[k + 1], <<"(">>)
+IntentionalDiff_ExtGlobAssumed(o) == o.lang = "bash" /\ StricterThanShell(o) /\ BangParenTok(o.toks)
 \* parser_test.go:308-:313 ("-n makes bash accept invalid inputs like `let` or "`{`""), :1098 (empty
 \* arithmetic "seems to be OK" for the shells), :1123-:1166 (arithmetic is not re-read as a command):
 \* the shells read these regions only when they expand the word; `-n` never looks inside.
@@ -183,6 +197,8 @@ Names(o) ==
   (IF IntentionalDiff_AmpGreaterPosix(o) THEN {"IntentionalDiff_AmpGreaterPosix"} ELSE {}) \cup
   (IF IntentionalDiff_InvalidUTF8(o) THEN {"IntentionalDiff_InvalidUTF8"} ELSE {}) \cup
   (IF IntentionalDiff_CRLF(o) THEN {"IntentionalDiff_CRLF"} ELSE {}) \cup
+  (IF IntentionalDiff_NoArithBacktrack(o) THEN {"IntentionalDiff_NoArithBacktrack"} ELSE {}) \cup
+  (IF IntentionalDiff_ExtGlobAssumed(o) THEN {"IntentionalDiff_ExtGlobAssumed"} ELSE {}) \cup
   (IF IntentionalDiff_EmptyArithmetic(o) THEN {"IntentionalDiff_EmptyArithmetic"} ELSE {}) \cup
   (IF LazyShell_Backquote(o) THEN {"LazyShell_Backquote"} ELSE {}) \cup
   (IF LazyShell_Arithmetic(o) THEN {"LazyShell_Arithmetic"} ELSE {}) \cup
@@ -210,7 +226,7 @@ BaseNotExcused ==
   LET o == Seen IN
   (o.mut = 0 /\ ~o.cr) =>
      /\ ~LoneBangTok(o.toks) /\ ~HdocWordExpansionTok(o.toks) /\ ~AmpGreaterTok(o.toks) /\ ~BadByteTok(o.toks)
-     /\ ~EmptyArithTok(o.toks)
+     /\ ~EmptyArithTok(o.toks) /\ ~BangParenTok(o.toks)
      /\ Names(o) = {}
 \* An excuse is only ever given to a disagreement, and -- carriage returns apart -- only where
 \* syntax.Parser is the stricter side.
